@@ -20,6 +20,8 @@ type EvalCtx struct {
 	facts  []string
 	err    []string
 	bound  int
+	depth  int
+	factSink *State
 }
 
 func (x *EvalCtx) fail(format string, a ...any) Val {
@@ -94,7 +96,41 @@ func (s *State) pureLoad(a *Addr) Val {
 
 // evaluation ------------------------------------------------------
 
+// eval evaluates a spec expression; well-formedness facts about the (ground) heap terms it reads are added to
+// the state the expression is evaluated in (they hold for every well-typed Go heap).
 func (x *EvalCtx) eval(e Expr) Val {
+	v := x.eval1(e)
+	if len(x.facts) > 0 && x.depth == 0 {
+		tgt := x.factSink
+		if tgt == nil {
+			tgt = x.s
+		}
+		for _, f := range x.facts {
+			tgt.assume(f)
+		}
+		x.facts = nil
+	}
+	return v
+}
+
+func (x *EvalCtx) note(v Val) Val {
+	ground := func(t string) bool { return !strings.Contains(t, "!q") }
+	switch kindOf(v.T) {
+	case kSlice:
+		if v.Sl != nil && ground(v.Sl.Len) && ground(v.Sl.Cap) && ground(v.Sl.Base) {
+			x.facts = append(x.facts, and(app("<=", "0", v.Sl.Len), app("<=", "0", v.Sl.Off), sliceFacts(v)))
+		}
+	case kInt:
+		if isUnsigned(v.T) && v.S != "" && ground(v.S) && strings.HasPrefix(v.S, "(select") {
+			x.facts = append(x.facts, app("<=", "0", v.S))
+		}
+	}
+	return v
+}
+
+func (x *EvalCtx) eval1(e Expr) Val {
+	x.depth++
+	defer func() { x.depth-- }()
 	switch n := e.(type) {
 	case *EInt:
 		v, err := strconv.ParseInt(n.V, 0, 64)
@@ -137,9 +173,9 @@ func (x *EvalCtx) eval(e Expr) Val {
 		}
 		return Val{T: a.T, S: ite(c.S, a.S, b.S)}
 	case *ESelect:
-		return x.selectExpr(n)
+		return x.note(x.selectExpr(n))
 	case *EIndex:
-		return x.index(n)
+		return x.note(x.index(n))
 	case *ECall:
 		return x.callExpr(n)
 	case *EQuant:
@@ -503,6 +539,9 @@ func (x *EvalCtx) callExpr(n *ECall) Val {
 		y := *x
 		y.s = x.old
 		y.old = nil
+		if y.factSink == nil {
+			y.factSink = x.s
+		}
 		v := y.eval(n.Args[0])
 		x.err = y.err
 		x.facts = y.facts
@@ -547,6 +586,9 @@ func (x *EvalCtx) callExpr(n *ECall) Val {
 	case "errIs":
 		a, b := x.eval(n.Args[0]), x.eval(n.Args[1])
 		return Val{T: boolT, S: errIsTerm(a.S, b.S)}
+	case "errClean":
+		a := x.eval(n.Args[0])
+		return Val{T: boolT, S: or(eq(a.S, "nilI"), app("errClean", app("perr", app("ipay", a.S))))}
 	case "isErr":
 		a := x.eval(n.Args[0])
 		return Val{T: boolT, S: not(eq(a.S, "nilI"))}
